@@ -68,6 +68,8 @@ type Machine struct {
 	dumpCache map[any]Value
 	onces     map[*Value]bool
 	ufApps    []ufApp
+	reCompiles []reCompile
+	refine     []*Term
 	syncMaps  map[*Value]*Map
 
 	// per-worker statistics
@@ -93,6 +95,8 @@ func (m *Machine) resetPath(prefix []int) {
 	m.dumpCache = nil
 	m.onces, m.syncMaps = nil, nil
 	m.ufApps = nil
+	m.reCompiles = nil
+	m.refine = nil
 	m.globals = map[*ssa.Global]*Value{}
 	if m.ex.initState != nil {
 		// a private copy of the state the repository's package initialisers left behind
